@@ -200,10 +200,15 @@ func (cr *checkRun) generate(config string, tags string) {
 		if vc != nil {
 			for _, o := range vc.obls {
 				ps := o.Props
-				if isSafetyKind(o.Kind) || strings.HasPrefix(o.Kind, "lock-") || strings.HasPrefix(o.Kind, "guarded") || o.Kind == "noblock-under-lock" {
+				if isSafetyKind(o.Kind) || strings.HasPrefix(o.Kind, "lock-") || strings.HasPrefix(o.Kind, "guarded") || o.Kind == "noblock-under-lock" || o.Kind == "blocking" {
 					if len(ct.Safety) > 0 {
 						ps = ct.Safety
 					}
+				}
+				if strings.HasPrefix(o.Kind, "pre(") {
+					// a callee precondition protects both the functional claim and
+					// the callee's runtime safety
+					ps = append(append([]string{}, ct.Props...), ct.Safety...)
 				}
 				if !hasProp(ps, cr.prop) {
 					continue
